@@ -1,8 +1,9 @@
 """T4b: in-place statements of the NumPy engine and of the element layer, with the provenance of
 their target.
 
-An in-place statement is an augmented assignment, a store into a subscript, or a `del` of a
-subscript.  Its target variable is
+An in-place statement is an augmented assignment, a store into a subscript, a `del` of a
+subscript, a call of a mutating container / array method (`d.setdefault`, `d.update`, `l.append`,
+`a.fill`, ...) or a NumPy call with an `out=` argument.  Its target variable is
   fresh   - bound, on every path reaching the statement, to a value the function itself created:
             the result of an arithmetic expression, of a NumPy / engine call, a literal, a dict or
             list display, or a constant-index element of a vector (a NumPy scalar: immutable, so
@@ -18,7 +19,10 @@ import os
 
 from translator.tables import Unsupported
 
-FILES = ["engines/numpy.py", "blocks/base.py", "blocks/links.py", "blocks/nodes.py", "blocks/origins.py",
+MUTATING = {"setdefault", "update", "pop", "popitem", "clear", "append", "extend", "insert", "remove", "sort",
+            "reverse", "fill", "put", "itemset", "resize", "add", "discard", "__setitem__", "__delitem__",
+            "__iadd__", "setflags", "partition"}
+FILES = ["engines/numpy.py", "engines/casadi.py", "blocks/base.py", "blocks/links.py", "blocks/nodes.py", "blocks/origins.py",
          "blocks/destinations.py", "network.py"]
 
 
@@ -52,6 +56,8 @@ def fresh_expr(e, env):
         if isinstance(f, ast.Attribute) and isinstance(f.value, ast.Name) and f.value.id == "np" \
                 and f.attr in NP_ALLOC:
             return True
+        if isinstance(f, ast.Attribute) and isinstance(f.value, ast.Name) and f.value.id == "cs":
+            return True               # CasADi functions build a new expression
         if isinstance(f, ast.Name) and f.id in ("dict", "list", "set", "tuple", "count", "len", "float", "int"):
             return True
         if isinstance(f, ast.Attribute) and isinstance(f.value, ast.Name) \
@@ -74,10 +80,15 @@ def fresh_expr(e, env):
     return False
 
 
-def analyse_function(fn, where, out):
+HELPER_ARGS = {}        # private module-level helper -> [fresh? per positional parameter] joined over its call sites
+
+
+def analyse_function(fn, where, out, helper_calls=None):
     env = {}            # name -> fresh?
-    for a in fn.args.args + fn.args.kwonlyargs:
+    for i, a in enumerate(fn.args.args + fn.args.kwonlyargs):
         env[a.arg] = False
+        if fn.name in HELPER_ARGS and i < len(HELPER_ARGS[fn.name]):
+            env[a.arg] = HELPER_ARGS[fn.name][i]
     if fn.args.vararg:
         env[fn.args.vararg.arg] = False
     if fn.args.kwarg:
@@ -88,16 +99,62 @@ def analyse_function(fn, where, out):
             t = t.value
         return t
 
+    def base_kind(b, env):
+        while isinstance(b, (ast.Subscript,)):
+            b = b.value
+        if isinstance(b, ast.Name):
+            return "fresh" if env.get(b.id, False) else "aliased"
+        if isinstance(b, ast.Attribute):
+            r = b
+            while isinstance(r, (ast.Attribute, ast.Subscript)):
+                r = r.value
+            if isinstance(r, ast.Name) and r.id == "self":
+                return "own"
+            return "aliased"
+        if isinstance(b, ast.Call):
+            return "fresh" if fresh_expr(b, env) else "aliased"
+        return "fresh" if fresh_expr(b, env) else "aliased"
+
+    def scan_calls(node, env, st):
+        """mutating method calls and out= arguments inside an expression / simple statement"""
+        for n in ast.walk(node):
+            if not isinstance(n, ast.Call):
+                continue
+            f = n.func
+            txt = ast.unparse(n).split("\n")[0][:70].replace('"', "'")
+            if isinstance(f, ast.Attribute) and f.attr in MUTATING:
+                recv = f.value
+                if isinstance(recv, ast.Name) and recv.id in ("np", "cs", "self", "super"):
+                    continue
+                out.append((where, txt, base_kind(recv, env)))
+            for kw in n.keywords:
+                if kw.arg == "out":
+                    out.append((where, txt, base_kind(kw.value, env)))
+            if helper_calls is not None and isinstance(f, ast.Name) and f.id.startswith("_"):
+                helper_calls.setdefault(f.id, []).append([fresh_expr(a, env) for a in n.args])
+
     def visit(stmts, env):
         for st in stmts:
+            if isinstance(st, (ast.Assign, ast.AnnAssign, ast.AugAssign, ast.Expr, ast.Return, ast.Delete, ast.Assert,
+                               ast.Raise)):
+                scan_calls(st, env, st)
+            elif isinstance(st, (ast.If, ast.While)):
+                scan_calls(st.test, env, st)
+            elif isinstance(st, ast.For):
+                scan_calls(st.iter, env, st)
+            elif isinstance(st, ast.With):
+                for it in st.items:
+                    scan_calls(it.context_expr, env, st)
             if isinstance(st, ast.Assign):
                 for tg in st.targets:
                     if isinstance(tg, ast.Name):
                         env[tg.id] = fresh_expr(st.value, env)
                     elif isinstance(tg, ast.Tuple):
-                        for el in tg.elts:
+                        vals = st.value.elts if isinstance(st.value, (ast.Tuple, ast.List)) \
+                            and len(st.value.elts) == len(tg.elts) else None
+                        for j, el in enumerate(tg.elts):
                             if isinstance(el, ast.Name):
-                                env[el.id] = isinstance(st.value, ast.Call)
+                                env[el.id] = fresh_expr(vals[j], env) if vals is not None else isinstance(st.value, ast.Call)
                     elif isinstance(tg, ast.Subscript):
                         base = target_base(tg)
                         record(st, base, env)
@@ -110,6 +167,9 @@ def analyse_function(fn, where, out):
                     env[st.target.id] = fresh_expr(st.value, env)
             elif isinstance(st, ast.AugAssign):
                 base = target_base(st.target)
+                if isinstance(st.target, ast.Name) and isinstance(st.value, (ast.Constant, ast.JoinedStr)) \
+                        and isinstance(getattr(st.value, "value", ""), str):
+                    continue                      # name += "text": strings are immutable, this re-binds
                 record(st, base, env)
                 if isinstance(st.target, ast.Name):
                     pass                          # provenance unchanged (in place or re-bound)
@@ -128,6 +188,15 @@ def analyse_function(fn, where, out):
                     for n in ast.walk(st.target):
                         if isinstance(n, ast.Name):
                             env[n.id] = False
+                    # a loop over a display of local values: `for g in (a, b)`, `for x, g in [(x, a), (u, b)]`
+                    if isinstance(st.iter, (ast.List, ast.Tuple)) and st.iter.elts:
+                        if isinstance(st.target, ast.Name):
+                            env[st.target.id] = all(fresh_expr(e, env) for e in st.iter.elts)
+                        elif isinstance(st.target, ast.Tuple) and all(
+                                isinstance(e, ast.Tuple) and len(e.elts) == len(st.target.elts) for e in st.iter.elts):
+                            for j, tn in enumerate(st.target.elts):
+                                if isinstance(tn, ast.Name):
+                                    env[tn.id] = all(fresh_expr(e.elts[j], env) for e in st.iter.elts)
                 e1 = dict(env)
                 visit(st.body, e1)
                 for k in set(e1):
@@ -167,9 +236,44 @@ def translate(repo):
         tree = ast.parse(open(os.path.join(repo, "src/sym_metanet", f)).read())
         RETURNS_FRESH.clear()
         compute_returns_fresh(tree)
+        helper_calls = {}
+        HELPER_ARGS.clear()
         for cls in [n for n in tree.body if isinstance(n, ast.ClassDef)]:
             for fn in [n for n in cls.body if isinstance(n, ast.FunctionDef)]:
-                analyse_function(fn, f"{cls.name}.{fn.name}", out)
+                analyse_function(fn, f"{cls.name}.{fn.name}", out, helper_calls)
+        # module-level functions: a private helper (leading underscore) that is only ever called by name in this
+        # module gets, per positional parameter, the provenance joined over its call sites; anything else is
+        # analysed like a public entry point (every parameter may be the caller's)
+        top = [n for n in tree.body if isinstance(n, ast.FunctionDef)]
+        for _round in range(3):          # helpers calling helpers
+            scratch = []
+            for fn in top:
+                analyse_function(fn, fn.name, scratch, helper_calls)
+            for name, calls in helper_calls.items():
+                n_ = max(len(c) for c in calls)
+                HELPER_ARGS[name] = [all(c[i] for c in calls if i < len(c)) and all(i < len(c) for c in calls)
+                                     for i in range(n_)]
+        escaped = set()
+        for n in ast.walk(tree):
+            # a helper referenced other than as the callee of a direct call (passed around, decorated) is public
+            if isinstance(n, ast.Name) and n.id in HELPER_ARGS and isinstance(n.ctx, ast.Load):
+                escaped.add(n.id)
+        for n in ast.walk(tree):
+            if isinstance(n, ast.Call) and isinstance(n.func, ast.Name):
+                escaped.discard(n.func.id) if False else None
+        direct = {}
+        for n in ast.walk(tree):
+            if isinstance(n, ast.Call) and isinstance(n.func, ast.Name) and n.func.id in HELPER_ARGS:
+                direct[n.func.id] = direct.get(n.func.id, 0) + 1
+        loads = {}
+        for n in ast.walk(tree):
+            if isinstance(n, ast.Name) and n.id in HELPER_ARGS and isinstance(n.ctx, ast.Load):
+                loads[n.id] = loads.get(n.id, 0) + 1
+        for name in list(HELPER_ARGS):
+            if loads.get(name, 0) != direct.get(name, 0):
+                del HELPER_ARGS[name]
+        for fn in top:
+            analyse_function(fn, fn.name, out)
     lines = ["(* in-place statements: (function, statement, target provenance) *)",
              "Inductive provenance := PFresh | POwn | PAliased.",
              "Definition gen_effects : list (string * string * provenance) :=", "  ["]
